@@ -10,6 +10,7 @@ import Driver.Dur
 import Driver.Gen
 import Driver.Wts
 import Driver.Mlpg
+import Driver.Voc
 
 open Drv
 
@@ -19,6 +20,7 @@ def dispatch (op : String) : Option (P Verdict) :=
   | "vset" => some Drv.Wts.runVset
   | "wset" => some Drv.Wts.runWset
   | "wavg" => some Drv.Wts.runWavg
+  | "voc" => some Drv.Voc.run
   | "mlpg" => some Drv.Mlpg.run
   | "gen" => some Drv.Gen.run
   | "dur" => some Drv.Dur.runDur
